@@ -325,6 +325,9 @@ def pipeline_level(chk, thorough, batches):
 def classify(prog, what):
     """Stable trigger string of an oracle failure, decidable on the input (root-cause class of the program)."""
     cs = prog["classes"]
+    # a class that can be rendered without producing any html (its marker is then all that tells the page about it)
+    if what in ("inline", "media", "fragment", "marker") and any(c.get("root") in U.EMPTY_ROOTS for c in cs):
+        return "c04-rendered-without-html"
     # a placeholder tag in some component template + a component with CSS variables: the placeholder may become a root element
     # that carries a data-djc-css attribute behind its data-djc-id attributes (notes/fixes/C04-placeholder-css-attr-order.patch)
     if any(c.get("cssdata") and U.nonempty_str(c.get("css")) for c in cs) and U.has_node({"page": [], "classes": cs}, ("jsdep", "cssdep")):
@@ -345,6 +348,15 @@ def e2e_oracle(chk, bu, typ, path, final, rec):
     """Direct property oracle on the final HTML of one rendering path. Returns the visible instance sequence."""
     prog = bu.prog
     seq, nJ, nC = U.visible(final)
+    ref = bu.reference()
+    if ref is not None:
+        # some class of the program can be rendered without producing html: the rendered instances (document order) come from
+        # the reference rendering; the instances that produce html must be the ones visible here
+        head = seq[:1] if seq[:1] == ["P"] else []
+        if seq != head + [x for x, v in ref if v]:
+            chk.disagree("visible instances of the real render != html-producing instances of the reference render",
+                         dict(rec, visible=seq, reference=ref))
+        seq = head + [x for x, _ in ref]
     order = [bu.clsof(x) for x in U.first_occ(seq)]
     idx_order = [x for x in U.first_occ(seq) if x not in ("P", "D")]
 
@@ -442,6 +454,7 @@ def run_prog(chk, prog, typs, paths, terms, label, coq=True):
                 if path == "middleware" and typ != "document":
                     continue
                 rec = {"kind": "e2e", "program": prog, "type": typ, "path": path}
+                del bu.inst[:]
                 try:
                     with U.EmitRecorder() as er:
                         mid, final = U.render_paths(bu, typ, path)
@@ -457,6 +470,11 @@ def run_prog(chk, prog, typs, paths, terms, label, coq=True):
                 chk.count(("e2e", json.dumps(prog, sort_keys=True), typ, path), nontriv, kind="e2e:%s:%s:%s" % (label, typ, path.split("(")[0][:14]),
                           sample={"page": U.page_src(prog), "classes": [c["name"] for c in prog["classes"]], "type": typ, "path": path,
                                   "instances": seq} if nontriv and label == "random" else None)
+                # ---- the instances that were CREATED (get_context_data calls of the generated classes; independent of markers and
+                # of the visible text) are the rendered instances the oracle used
+                if sorted(map(str, bu.inst)) != sorted(str(x) for x in seq if x != "D"):
+                    chk.disagree("component instances created during the render (get_context_data calls) != instances of the document",
+                                 dict(rec, created=list(bu.inst), instances=seq))
                 # ---- emit side: one call of insert_component_dependencies_comment per rendered instance ----
                 exp_hashes = [(bu.page2_cls if (x == "P" and path == U.PATHS[4]) else bu.clsof(x))._class_hash for x in seq]
                 if path == U.PATHS[5]:
@@ -468,9 +486,9 @@ def run_prog(chk, prog, typs, paths, terms, label, coq=True):
                     continue
                 mid = str(mid)
                 with_page = path.startswith("Component.render")
-                mseq, _, _ = U.visible(mid)
-                if mseq != seq:
+                if U.visible(mid)[0] != U.visible(final)[0]:
                     chk.fail(classify(prog, "visible"), "render_dependencies changed the visible text", rec)
+                mseq = seq
                 cut = U.cut_at_markers(mid, er.calls)
                 if isinstance(cut, str):
                     chk.disagree("rendered content is not text/marker/.../text of the recorded calls: " + cut, rec)
@@ -578,6 +596,25 @@ def mi_programs():
             yield {"classes": classes, "page": [["c", k, None], ["c", k, None]], "shell": "full", "js_ph": 0, "css_ph": 0}
 
 
+def ghost_programs():
+    """Components that ARE rendered but produce no html in that render (behaviour-only template, white space, guard false,
+    inherited empty template), carrying js / css / Media of their own: every page of <= 2 uses."""
+    def cls(name, root, js, css, mjs, mcss=None, tpl=None, **kw):
+        return dict({"name": name, "base": None, "js": js, "css": css, "mjs": mjs, "mcss": mcss, "jsdata": False, "cssdata": False,
+                     "root": root, "tpl": tpl if tpl is not None else []}, **kw)
+    classes = [cls("Track", "comment", "/*track*/", ".track{}", ["s/track.js", "s/sh.js"], {"all": ["s/track.css"]}),
+               cls("Keys", "ws", "/*keys*/", None, ["s/keys.js"]),
+               cls("Banner", "guard", "/*banner*/", ".banner{}", ["s/banner.js"], ["s/banner.css"], tpl=[["c", 3, None]]),
+               cls("Vis", "div", "/*vis*/", None, ["s/sh.js"]),
+               dict(cls("SubTrack", "comment", None, None, ["s/sub.js"]), base=0, tpl=None)]
+    atoms = [["c", 0, None], ["c", 1, None], ["c", 2, None, "yes"], ["c", 2, None, "no"], ["c", 3, None], ["c", 4, None],
+             ["cf", 0, [["zz", [["c", 3, None]], None]]], ["dyn", 0, None, "name"], ["for", 2, [["c", 2, None, "no"]]], ["c", 3, [["c", 1, None]]]]
+    for L in range(0, 3):
+        for seq in itertools.product(range(len(atoms)), repeat=L):
+            for shell, jp, cp in (("full", 0, 0), ("none", 1, 1)) if L < 2 else (("full", 0, 0),):
+                yield {"classes": classes, "page": [atoms[i] for i in seq], "shell": shell, "js_ph": jp, "css_ph": cp}
+
+
 def load_corpus():
     out = []
     if os.path.isdir(CORPUS):
@@ -652,6 +689,10 @@ def run(tier, seed):
         run_prog(chk, prog, ["document", "fragment"], U.PATHS if n2 % 3 == 0 else [U.PATHS[0], U.PATHS[2]], terms, "multi-inherit",
                  coq=(thorough or n2 % 5 == 0))
     chk.extra["programs_multiple_inheritance"] = n2 + 1
+    for n3, prog in enumerate(ghost_programs()):
+        run_prog(chk, prog, ["document", "fragment"], U.PATHS if n3 % 3 == 0 else [U.PATHS[0], U.PATHS[2]], terms, "no-html-output",
+                 coq=(thorough or n3 % 4 == 0))
+    chk.extra["programs_without_html_output"] = n3 + 1
     lap("e2e-small-render")
     nrand = 6000 if thorough else 900
     for k in range(nrand):
